@@ -196,3 +196,22 @@ Lemma anchor_raw_reads : gen_raw_reads = [
   "ReadBoolFromReader: io.ReadFull(r, byteArray)"%string;
   "ReadFloatFromReader: io.ReadFull(r, byteArray)"%string].
 Proof. reflexivity. Qed.
+
+(* ---- removed rules (engine commit 01c7ce8): the stream has no Deleted field; BuildKnowledgeBase
+   derives the flag from the rule name, and the names it recognises are the names RemoveRuleEntry
+   (library and knowledge-base level) makes.  Catalog.is_tombstone_name / entries_of_catalog /
+   remove_rule are written against these. ---- *)
+Lemma anchor_rule_entry_deleted : gen_rule_entry_deleted = "isTombstoneName(amet.RuleName)"%string.
+Proof. reflexivity. Qed.
+
+Lemma anchor_tombstone_prefix : gen_tombstone_prefix = tombstone_prefix.
+Proof. reflexivity. Qed.
+
+Lemma anchor_tombstone_shape : gen_tombstone_shape =
+  ["len(name) != len(prefix) + 36 || name[:len(prefix)] != prefix"%string; "uuid.Parse(name[len(prefix):])"%string]
+  /\ uuid_length = 36%nat.
+Proof. split; reflexivity. Qed.
+
+Lemma anchor_remove_formats : gen_remove_formats =
+  [(tombstone_prefix ++ "%s <- uuid.New().String()")%string; (tombstone_prefix ++ "%s <- uuid.New().String()")%string].
+Proof. reflexivity. Qed.
